@@ -19,10 +19,18 @@ func vC05Alloc(maxN int) {
 			vAssume(k != o)
 		}
 		keys = append(keys, k)
-		m[k] = &fcallRequest{}
+		// an outstanding request whose caller is still waiting, or one the
+		// caller has abandoned (its context ended): both still await a reply
+		rctx := vBG
+		if ndChoice("abandoned", 2) == 1 {
+			c, cancel := context.WithCancel(vBG)
+			cancel()
+			rctx = c
+		}
+		m[k] = newFcallRequest(rctx, MessageTclunk{})
 	}
 	hint := Tag(ndU16("hint"))
-	tag, err := allocateTag(&fcallRequest{}, m, hint)
+	tag, err := allocateTag(newFcallRequest(vBG, MessageTclunk{}), m, hint)
 	vAssert(err == nil, "C05: a tag is available while fewer than 65535 are outstanding")
 	vAssert(tag != NOTAG, "C05: the reserved no-tag value is never allocated")
 	for _, k := range keys {
